@@ -43,6 +43,8 @@ pub struct Scenario {
     pub build_failure_before: Option<usize>,
     /// allow `send` to stall
     pub stalls: bool,
+    /// the explorer may make a send fail, before or after its bytes reached the peer
+    pub send_faults: bool,
     /// mode M2: artificial yields at the scheduling points inside rpc()/recv() (Tasks placement only)
     pub yields: bool,
 }
@@ -57,6 +59,7 @@ impl Scenario {
             "build_failure_before_request": self.build_failure_before,
             "send_may_stall": self.stalls,
             "artificial_yields_inside_sections": self.yields,
+            "send_may_fail": self.send_faults,
         })
     }
 }
@@ -103,6 +106,8 @@ enum Action {
 }
 
 struct Shared {
+    /// request k -> index of its message among the requests on the wire (None: never written)
+    wire_index: Vec<Option<usize>>,
     results: Vec<Option<Res>>,
     child_dropped: Vec<bool>,
     session: Option<Session<MemTransport>>,
@@ -134,9 +139,10 @@ pub fn execute(sc: &Scenario) -> Outcome {
             }
         }
     };
-    if sc.stalls {
+    if sc.stalls || sc.send_faults {
         wire.lock().stall_mode = StallMode::Ask;
     }
+    wire.lock().faulty_sends = sc.send_faults;
     if sc.yields && sc.placement == Placement::Tasks {
         netconf::session::verif::set_yield_hook(Some(Box::new(|_label| {
             let y = choose("yield", 2) == 1;
@@ -150,6 +156,7 @@ pub fn execute(sc: &Scenario) -> Outcome {
     }
     let n = sc.n;
     let shared = Rc::new(RefCell::new(Shared {
+        wire_index: vec![None; n],
         results: vec![None; n],
         child_dropped: vec![false; n],
         session: None,
@@ -179,7 +186,12 @@ pub fn execute(sc: &Scenario) -> Outcome {
                         shared.borrow_mut().build_failure_ok = false;
                     }
                 }
-                match session.rpc::<Get, _>(|b| b.finish()).await {
+                let wire_before = wire2.sent_count();
+                let sent = session.rpc::<Get, _>(|b| b.finish()).await;
+                if wire2.sent_count() > wire_before {
+                    shared.borrow_mut().wire_index[k] = Some(wire_before - 1);
+                }
+                match sent {
                     Ok(fut) => match placement {
                         Placement::Tasks => {
                             let shared = shared.clone();
@@ -410,7 +422,7 @@ pub fn execute(sc: &Scenario) -> Outcome {
         if dropped[k] {
             continue;
         }
-        let want = sent_ids.get(k).map(|id| tag_for(id));
+        let want = sh.wire_index[k].and_then(|w| sent_ids.get(w)).map(|id| tag_for(id));
         match (&sh.results[k], want) {
             (None, _) => problems.push((
                 "waiter-never-completes".into(),
@@ -422,7 +434,7 @@ pub fn execute(sc: &Scenario) -> Outcome {
                 format!("request {k} resolved with {got:?}, expected {want:?}"),
             )),
             (Some(Err(err)), _) => {
-                if !sc.stray {
+                if !sc.stray && !sc.send_faults {
                     problems.push((
                         "spurious-error".into(),
                         format!("request {k} failed although its reply was delivered: {err}"),
@@ -431,8 +443,8 @@ pub fn execute(sc: &Scenario) -> Outcome {
             }
         }
     }
-    if !livelock && sh.send_errors.is_empty() {
-        let want = sent_ids.get(n).map(|id| tag_for(id));
+    if !livelock && sh.send_errors.is_empty() && !sc.send_faults {
+        let want = sent_ids.last().map(|id| tag_for(id));
         match (&followup, want) {
             (Some(Ok(got)), Some(want)) if *got == want => {}
             (Some(Err(_)), _) if sc.stray => {}
@@ -470,6 +482,7 @@ pub fn plans(id: &str, tier: Tier) -> Vec<Plan> {
     let mut out = Vec::new();
     let thorough = tier.thorough();
     let sc = |n, placement, victims: &[usize], stray, bf, stalls, yields| Scenario {
+        send_faults: false,
         n,
         placement,
         victims: victims.to_vec(),
@@ -488,6 +501,10 @@ pub fn plans(id: &str, tier: Tier) -> Vec<Plan> {
             add(sc(2, placement, &[], true, None, true, false), None);
             add(sc(3, placement, &[], true, Some(1), true, false), Some(if thorough { 5 } else { 3 }));
             add(sc(2, placement, &[], false, Some(1), false, false), None);
+        }
+        // sends that fail before / after their bytes were delivered: message-ids must stay unique
+        for placement in [Tasks, Sequential] {
+            add(Scenario { send_faults: true, ..sc(3, placement, &[], false, None, false, false) }, Some(if thorough { 4 } else { 3 }));
         }
         // M2: artificial yields inside the critical sections
         add(sc(2, Tasks, &[], false, None, true, true), Some(if thorough { 5 } else { 4 }));
@@ -606,6 +623,7 @@ fn scenario_json(sc: &Scenario) -> Value {
         "build_failure_before": sc.build_failure_before,
         "stalls": sc.stalls,
         "yields": sc.yields,
+        "send_faults": sc.send_faults,
     })
 }
 
@@ -622,6 +640,7 @@ pub fn scenario_from_json(v: &Value) -> Scenario {
         build_failure_before: v["build_failure_before"].as_u64().map(|x| x as usize),
         stalls: v["stalls"].as_bool().unwrap_or(true),
         yields: v["yields"].as_bool().unwrap_or(false),
+        send_faults: v["send_faults"].as_bool().unwrap_or(false),
     }
 }
 
